@@ -211,11 +211,38 @@ Proof.
 Qed.
 
 Theorem size_param_refused : forall c s n o h,
-  st s = READY -> (max_bytes c < n)%Z ->
+  st s = READY -> (max_bytes c < n)%Z -> (n <= int32_max)%Z ->
   step c s (L (Mail (MParsed (SzVal n) o) h)) = Ok s (one 552) [].
 Proof.
-  intros c s n o h Hs Hl. unfold step, step_ready, step_mail_from. rewrite Hs.
+  intros c s n o h Hs Hl Hr. unfold step, step_ready, step_mail_from. rewrite Hs.
+  destruct (int32_max <? n)%Z eqn:E0; [lia|].
   destruct (max_bytes c <? n)%Z eqn:E; [reflexivity|lia].
+Qed.
+
+(** A declared SIZE beyond the 32-bit range is a parameter error, whatever the limit. *)
+Theorem huge_size_param_refused : forall c s n o h,
+  st s = READY -> (int32_max < n)%Z ->
+  step c s (L (Mail (MParsed (SzVal n) o) h)) = Ok s (one 501) [].
+Proof.
+  intros c s n o h Hs Hl. unfold step, step_ready, step_mail_from. rewrite Hs.
+  destruct (int32_max <? n)%Z eqn:E0; [reflexivity|lia].
+Qed.
+
+(** Whatever its magnitude, a declared SIZE above the limit is never accepted. *)
+Theorem oversize_declared_never_accepted : forall c s n o h s' r d,
+  (max_bytes c < n)%Z ->
+  step c s (L (Mail (MParsed (SzVal n) o) h)) = Ok s' r d ->
+  first_code r <> 250%Z /\ d = [].
+Proof.
+  intros c s n o h s' r d Hl H.
+  pose proof (step_size_ok _ _ _ _ _ _ H) as Hs. cbn in Hs.
+  destruct (max_bytes c <? n)%Z eqn:E; [|lia].
+  split; [destruct (first_code r =? 250)%Z eqn:E2; [discriminate|lia]|].
+  unfold step, step_greet, step_ready, step_mail, step_mail_from in H.
+  destruct (st s); try discriminate;
+  repeat match type of H with
+         | context [match ?x with _ => _ end] => destruct x eqn:?
+         end; inversion H; reflexivity.
 Qed.
 
 Theorem within_limit_accepted : forall c s body h hook o,
